@@ -29,6 +29,9 @@ func (e *Engine) GenFunc(key string, con *Contract) (vc *VC, err error) {
 	if len(fn.Blocks) == 0 {
 		return nil, fmt.Errorf("function %s has no body", key)
 	}
+	if hasAbstract(con, "body") { // authflow.go (w-c18): unit checked by the static authority analysis only
+		return e.genStaticUnit(key, con)
+	}
 	vc = newVC(e, fn, con, key)
 	defer func() {
 		if r := recover(); r != nil {
@@ -46,6 +49,7 @@ func (e *Engine) GenFunc(key string, con *Contract) (vc *VC, err error) {
 		}
 	}()
 	vc.run()
+	vc.authPublish() // authflow.go (w-c18)
 	return vc, nil
 }
 
@@ -58,6 +62,12 @@ func (vc *VC) run() {
 	vc.assume("true", app("<=", "1", a0))
 	// parameters
 	nparams := len(fn.Params)
+	if len(con.Params) == 1 && con.Params[0] == "*" { // w-c18: header `func f(*)` binds no parameter names
+		con.Params = make([]string, nparams)
+		for i := range con.Params {
+			con.Params[i] = fmt.Sprintf("p%d", i)
+		}
+	}
 	if len(con.Params) != nparams {
 		panic(specErr(fmt.Sprintf("%s:%d: contract binds %d parameters, function has %d", con.File, con.Line, len(con.Params), nparams)))
 	}
@@ -639,6 +649,9 @@ func isHeapVar(name string) bool {
 }
 
 func (vc *VC) modifiable(name string) bool {
+	if vc.logImplicitlyModifiable(name) { // logghost.go (w-c09)
+		return true
+	}
 	for _, m := range vc.con.Modifies {
 		if m == name || strings.HasPrefix(name, m+"|") || (strings.HasPrefix(name, "G|") && "G|"+m == name) {
 			return true
